@@ -10,8 +10,8 @@ use serde_json::{json, Value};
 fn tok_text(t: &str) -> String {
     match t {
         "O" => "10:10".into(),
-        "A" => "50:50".into(),
-        "Bc" => "90:90".into(),
+        "A" => "50:30".into(),
+        "Bc" => "90:50".into(),
         "Cn" => "100:0".into(),
         other => other.to_string(),
     }
